@@ -11,6 +11,39 @@ def replay(ob):
     import numpy as np
     import odl
     rng = np.random.default_rng(2)
+    unit = ob.get('unit', '')
+    if not rp.get('kind') and unit.startswith('discr/') and unit.split('/')[1] in ('_inner', '_norm', '_dist'):
+        rp = {'kind': 'discr', 'method': unit.split('/')[1]}
+    if unit.startswith('pspace-weighting/'):
+        cfg = ob.get('config') or {}
+        kind, field, p = cfg.get('weighting'), cfg.get('field'), cfg.get('exponent')
+        base = odl.cn(3) if field == 'complex' else odl.rn(3)
+        w = np.array([0.5, 2.0, 3.0])
+        sp = odl.ProductSpace(base, 3, weighting=(w if kind == 'array' else 1.7), exponent=p)
+        wv = w if kind == 'array' else np.full(3, 1.7)
+
+        def rnd():
+            return sp.element([rng.standard_normal(3) + (1j * rng.standard_normal(3) if field == 'complex' else 0) for _ in range(3)])
+        x, y = rnd(), rnd()
+        problems = []
+        if p == 2.0:
+            want = sum(wv[i] * np.vdot(y[i].asarray(), x[i].asarray()) for i in range(3))
+            got = x.inner(y)
+            if abs(got - want) > 1e-9 * max(1.0, abs(want)):
+                problems.append('inner on %r: %r, expected sum_i w_i <x_i, y_i> = %r' % (sp, got, want))
+        ns = np.array([np.linalg.norm(x[i].asarray()) for i in range(3)])
+        ds = np.array([np.linalg.norm((x[i] - y[i]).asarray()) for i in range(3)])
+        if p == 2.0:
+            wn, wd = np.sqrt(np.sum(wv * ns ** 2)), np.sqrt(np.sum(wv * ds ** 2))
+        elif p == 1.0:
+            wn, wd = np.sum(wv * ns), np.sum(wv * ds)
+        else:
+            wn, wd = np.max(wv * ns), np.max(wv * ds)
+        if abs(x.norm() - wn) > 1e-9 * max(1.0, wn):
+            problems.append('norm on %r: %r, expected %r' % (sp, x.norm(), wn))
+        if kind == 'const' and abs(x.dist(y) - wd) > 1e-9 * max(1.0, wd):
+            problems.append('dist on %r: %r, expected %r' % (sp, x.dist(y), wd))
+        return {'reproduced': bool(problems), 'detail': '; '.join(problems[:2]) or 'documented weighted sums hold natively'}
     if rp.get('kind') == 'inner':
         dt = rp['dtype']
         problems = []
@@ -29,7 +62,7 @@ def replay(ob):
         return {'reproduced': bool(problems), 'detail': '; '.join(problems[:3]) or 'closed form holds natively'}
     if rp.get('kind') == 'discr':
         problems = []
-        for nob in ((True, False), (False, True), True):
+        for nob in ((True, False), (False, True), True, (True, True)):
             for shape in ((4,), (3, 4)):
                 sp = odl.uniform_discr([0] * len(shape), [1] * len(shape), shape, nodes_on_bdry=[nob] * len(shape) if len(shape) > 1 else nob)
                 x = sp.element(rng.standard_normal(shape))
